@@ -1080,6 +1080,7 @@ func init() {
 			{Name: "random registration sets on random shapes", N: Fixed(4000, 2000000), Run: c13Random},
 			{Name: "all 48x48 registration pairs x 3 shapes (thorough only)", Exhaustive: true, N: Fixed(0, 48*48*3), Run: c13Pairs},
 			{Name: "cells carrying callbacks added at several places and copied by value", N: Fixed(2000, 1000000), Run: c13Copies},
+			{Name: "a row hook appends a cell to the row being added (1-4 cells x 4 ways of making the row)", Exhaustive: true, N: Fixed(16, 16), Run: c13Growing},
 		},
 	})
 }
@@ -1283,5 +1284,112 @@ func c13Copies(c *Ctx, i int, r *gen.R) {
 	}
 	if c.Rec.WantSample() && i%40 == 9 {
 		c.Rec.Sample(map[string]interface{}{"cell_copy_scenario": log})
+	}
+}
+
+// ---------------------------------------------------------------------------
+// A row-targeted add-time callback which GROWS the row it is handed (a computed "total" cell appended by a hook)
+// while table- and column-level cell callbacks are registered too.  Asserted for the cells the row had when it was
+// added: exactly one invocation each, on the live cell (the property the callback sets is read back through
+// CellAt).  For the appended cell only "at most once, and then on the live cell" is asserted: whether a cell that
+// joins during the add is "one of its cells" is not settled by the statement.
+
+func c13Growing(c *Ctx, i int, r *gen.R) {
+	n := 1 + i%4 // cells the row starts with
+	mode := (i / 4) % 4
+	modes := []string{"t.AddRowItems (row exactly full)", "NewRow (roomy) + AddRow", "NewRowWithCapacity(n) + AddRow", "t.NewRowSizedFor + AddRow"}
+	desc := map[string]interface{}{"cells": n, "row_made_by": modes[mode]}
+	c.Case = desc
+	c.Rec.Eval(gen.Hash64("growing", fmt.Sprint(i)), true)
+	t := tabular.New()
+	hs := make([]interface{}, n)
+	for k := range hs {
+		hs[k] = fmt.Sprintf("h%d", k+1)
+	}
+	t.AddHeaders(hs...)
+	grown := 0
+	t.RegisterPropertyCallback(t, tabular.CB_AT_ADD, tabular.CB_ON_ROW, cbFunc(func(o tabular.PropertyOwner) error {
+		if row, ok := o.(*tabular.Row); ok && row.Location().Row > 0 && grown == 0 {
+			grown++
+			row.Add(tabular.NewCell("appended by the row hook"))
+		}
+		return nil
+	}))
+	type seen struct {
+		n    int
+		cell *tabular.Cell
+	}
+	byCol := map[int]*seen{}
+	key := &struct{ k string }{"c13-growing"}
+	t.RegisterPropertyCallback(t, tabular.CB_AT_ADD, tabular.CB_ON_CELL, cbFunc(func(o tabular.PropertyOwner) error {
+		cell, ok := o.(*tabular.Cell)
+		if !ok || cell.Location().Row == 0 {
+			return nil
+		}
+		col := cell.Location().Column
+		if byCol[col] == nil {
+			byCol[col] = &seen{}
+		}
+		byCol[col].n++
+		byCol[col].cell = cell
+		cell.SetProperty(key, col)
+		c.Rec.Count("callback_events_observed", 1)
+		return nil
+	}))
+	items := make([]interface{}, n)
+	for k := range items {
+		items[k] = fmt.Sprintf("c%d", k+1)
+	}
+	addCells := func(row *tabular.Row) {
+		for _, it := range items {
+			row.Add(tabular.NewCell(it))
+		}
+	}
+	switch mode {
+	case 0:
+		t.AddRowItems(items...)
+	case 1:
+		row := tabular.NewRow()
+		addCells(row)
+		t.AddRow(row)
+	case 2:
+		row := tabular.NewRowWithCapacity(n)
+		addCells(row)
+		t.AddRow(row)
+	default:
+		row := t.NewRowSizedFor()
+		addCells(row)
+		t.AddRow(row)
+	}
+	c.Rec.Count("rows_grown_by_a_row_hook_during_the_add", int64(grown))
+	for col := 1; col <= n; col++ {
+		s := byCol[col]
+		if s == nil || s.n != 1 {
+			k := 0
+			if s != nil {
+				k = s.n
+			}
+			c.Rec.Violate("growing-row:add-time-cell-callback-count", fmt.Sprintf("a row of %d cells (%s) was added while a row hook appended one more cell: the table-level add-time cell callback fired %d times for cell %d, expected once", n, modes[mode], k, col), desc)
+			return
+		}
+		live, err := t.CellAt(tabular.CellLocation{Row: 1, Column: col})
+		if err != nil {
+			c.Rec.Violate("growing-row:cell-unreachable", fmt.Sprintf("CellAt(1,%d): %v", col, err), desc)
+			return
+		}
+		if got := live.GetProperty(key); got != interface{}(col) {
+			c.Rec.Violate("growing-row:callback-not-on-the-live-cell", fmt.Sprintf("a row of %d cells (%s) was added while a row hook appended one more cell: the property the add-time cell callback set on cell %d is not visible through the table (reads %v): the callback was handed a cell that is not the table's", n, modes[mode], col, got), desc)
+			return
+		}
+	}
+	if s := byCol[n+1]; s != nil {
+		if s.n > 1 {
+			c.Rec.Violate("growing-row:add-time-cell-callback-count", fmt.Sprintf("the cell appended by the row hook got the table-level add-time cell callback %d times", s.n), desc)
+			return
+		}
+		if live, err := t.CellAt(tabular.CellLocation{Row: 1, Column: n + 1}); err == nil && live.GetProperty(key) != interface{}(n+1) {
+			c.Rec.Violate("growing-row:callback-not-on-the-live-cell", "the add-time cell callback for the appended cell was handed a cell that is not the table's", desc)
+			return
+		}
 	}
 }
